@@ -202,8 +202,10 @@ Proof.
 Qed.
 
 (* completeness WITHOUT a dim.  FULL STATEMENT (still false): getvector a None OArray = Ok v -> isvector a None = Ok true.
-   Two witnesses remain: the empty 1-D array (R2) and a matrix, which getvector flattens silently when no dim is given *)
+   By design getvector (a converter) accepts the empty vector in every form, isvector (a predicate) in none (since fix 2c16cfc);
+   third witness: a matrix, which getvector flattens silently when no dim is given *)
 Theorem C15_isvector_complete_refuted : forall (x : E),
+  (getvector (PyList []) None OArray = Ok (VArr1 []) /\ isvector (@PyList E []) None = Ok false) /\
   (getvector (Nd1 []) None OArray = Ok (VArr1 []) /\ isvector (@Nd1 E []) None = Ok false) /\
   (getvector (Nd2 2 2 [x; x; x; x]) None OArray = Ok (VArr1 [cv x; cv x; cv x; cv x]) /\ isvector (Nd2 2 2 [x; x; x; x]) None = Ok false).
 Proof. intros; repeat split. Qed.
@@ -213,27 +215,27 @@ Theorem C15_isvector_complete_partial : forall k (l : list E) dim v, l <> [] ->
 Proof.
   intros k l dim v Hn H.
   assert (L : 0 <? length l = true) by (destruct l; [congruence|reflexivity]).
+  assert (N : negb (is_nil l) = true) by (destruct l; [congruence|reflexivity]).
   destruct k as [|[|[|[|k]]]]; cbn [form5] in *; unfold Nd1, NdRow, NdCol in *;
     cbn [C15_ArgCheck.getvector C15_ArgCheck.isvector] in *; unfold gv_seq, gv_nd in H;
     destruct dim as [d|]; rewrite ?shape_ok_1, ?shape_ok_row, ?shape_ok_col in *; cbn [negb andb] in H;
     try (destruct (length l =? d); [reflexivity|discriminate]);
-    rewrite ?L; cbn [Nat.eqb Nat.ltb Nat.leb andb orb]; rewrite ?andb_true_r, ?orb_true_r; reflexivity.
+    rewrite ?L, ?N; cbn [Nat.eqb Nat.ltb Nat.leb andb orb]; rewrite ?andb_true_r, ?orb_true_r; reflexivity.
 Qed.
 
-(* isvector itself is form-independent on non-empty vectors ... *)
-Theorem C15_isvector_five_forms : forall k (l : list E) dim, l <> [] ->
+(* isvector itself is form-independent: FULL STATEMENT, every list (holds since fix 2c16cfc: the empty list/tuple is no vector either) *)
+Theorem C15_isvector_five_forms : forall k (l : list E) dim,
   isvector (form5 k l) dim = isvector (Nd1 l) dim.
 Proof.
-  intros k l dim Hn.
-  assert (L : 0 <? length l = true) by (destruct l; [congruence|reflexivity]).
+  intros k l dim.
+  assert (L : negb (is_nil l) = (0 <? length l)) by (destruct l; reflexivity).
   destruct k as [|[|[|[|k]]]]; cbn [form5]; unfold Nd1, NdRow, NdCol; cbn [C15_ArgCheck.isvector]; destruct dim as [d|];
-    rewrite ?shape_ok_1, ?shape_ok_row, ?shape_ok_col, ?L; cbn [Nat.eqb Nat.ltb Nat.leb andb orb];
-    rewrite ?andb_true_r, ?orb_true_r; reflexivity.
+    rewrite ?shape_ok_1, ?shape_ok_row, ?shape_ok_col, ?L; try reflexivity;
+    destruct l; cbn [length Nat.eqb Nat.ltb Nat.leb andb orb]; rewrite ?andb_true_r, ?orb_true_r, ?andb_false_r; reflexivity.
 Qed.
-(* ... and NOT on the empty one: isvector([]) is True, isvector(np.array([])) is False *)
-Theorem C15_isvector_five_forms_refuted :
-  isvector (@PyList E []) None = Ok true /\ isvector (@Nd1 E []) None = Ok false.
-Proof. split; reflexivity. Qed.
+Example C15_isvector_empty_forms_agree :
+  isvector (@PyList E []) None = Ok false /\ isvector (@PyTuple E []) None = Ok false /\ isvector (@Nd1 E []) None = Ok false.
+Proof. repeat split. Qed.
 
 (* a vector of the wrong length is never a vector of length d, in any form (isvector has no hole) *)
 Theorem C15_isvector_wrong_length : forall k (l : list E) d, length l <> d -> isvector (form5 k l) (Some d) = Ok false.
@@ -267,7 +269,6 @@ Print Assumptions C15_isvector_complete_with_dim.
 Print Assumptions C15_isvector_complete_refuted.
 Print Assumptions C15_isvector_complete_partial.
 Print Assumptions C15_isvector_five_forms.
-Print Assumptions C15_isvector_five_forms_refuted.
 Print Assumptions C15_isvector_wrong_length.
 Print Assumptions C15_assertvector_wrong_length.
 
